@@ -13,8 +13,12 @@ three-row counter-example exists.  `search(smt2)` decides such a query exactly:
    (`cast_<int>_<float>(v) = v`, `cast_<float>_<int>(r) = trunc r`, widen = narrow = identity, `fits` = true), which satisfies every
    axiom of pyvc/ext_C05_frame.py; the axioms constrain each argument separately, so the two parts do not interact.
    A family may be listed only with such an argument.
-3. if anything quantified is left, nothing is claimed (None).  Otherwise the ground query is solved: `sat` is a counter-model of the
-   original query (by 1 and 2), `unsat` proves it (instances are consequences).
+3. a quantified formula that is left (a range guard of SYMBOLIC length, say) is kept AS IT IS, provided no function of a listed family occurs in it
+   (the argument of 2 then still holds: the pointwise axioms are the only quantified statements about those functions, and the kept formulas do
+   not see how they are completed outside the ground terms) and at least one pointwise axiom was instantiated (otherwise the query is the one
+   the solvers already answered).  If a listed function occurs under a quantifier that is left, nothing is claimed (None).
+4. the query - ground part, instances, kept formulas - is solved: `sat` is a counter-model of the original query (by 1 - 3), `unsat` proves it
+   (instances are consequences); `unknown` claims nothing.
 """
 from __future__ import annotations
 
@@ -84,6 +88,31 @@ def _apps(f, decl, acc, seen):
             _apps(c, decl, acc, seen)
 
 
+def _mentions_local(f, seen):
+    """does a function of a family with pointwise axioms occur in f (quantifier bodies included)?"""
+    if f.get_id() in seen:
+        return False
+    seen.add(f.get_id())
+    if z3.is_quantifier(f):
+        return _mentions_local(f.body(), seen)
+    if z3.is_app(f):
+        if f.decl().name().startswith(LOCAL_AXIOM_PREFIXES):
+            return True
+        return any(_mentions_local(c, seen) for c in f.children())
+    return False
+
+
+def _num_consts(f, acc, seen):
+    if f.get_id() in seen or z3.is_quantifier(f):
+        return
+    seen.add(f.get_id())
+    if z3.is_const(f) and f.decl().kind() == z3.Z3_OP_UNINTERPRETED and (z3.is_int(f) or z3.is_real(f)):
+        acc[f.get_id()] = f
+    elif z3.is_app(f):
+        for c in f.children():
+            _num_consts(c, acc, seen)
+
+
 def _conjuncts(f):
     if z3.is_and(f):
         for c in f.children():
@@ -101,22 +130,27 @@ def search(smt2: str, timeout_ms: int = 10000):
     except z3.Z3Exception:
         return None
     memo = {}
-    ground, local = [], []
+    ground, local, rest = [], [], []
     for f in fs:
         for g in _conjuncts(z3.simplify(_expand(f, ctx, memo))):
             if z3.is_quantifier(g):
-                if not (g.is_forall() and g.num_vars() == 1 and g.num_patterns() == 1 and g.pattern(0).num_args() == 1):
+                pat = g.pattern(0).arg(0) if g.is_forall() and g.num_vars() == 1 and g.num_patterns() == 1 and g.pattern(0).num_args() == 1 else None
+                if pat is not None and z3.is_app(pat) and pat.num_args() == 1 and z3.is_var(pat.arg(0)) and pat.decl().name().startswith(LOCAL_AXIOM_PREFIXES):
+                    local.append((pat.decl(), g))
+                elif _mentions_local(g, set()):
                     return None
-                pat = g.pattern(0).arg(0)
-                if not (z3.is_app(pat) and pat.num_args() == 1 and z3.is_var(pat.arg(0)) and pat.decl().name().startswith(LOCAL_AXIOM_PREFIXES)):
-                    return None
-                local.append((pat.decl(), g))
+                else:
+                    rest.append(g)
             elif _has_quant(g, set()):
-                return None
+                if _mentions_local(g, set()):
+                    return None
+                rest.append(g)
             else:
                 ground.append(g)
         if time.time() - t0 > 20:
             return None
+    if rest and not local:
+        return None
     done = set()
     for _ in range(4):
         new = []
@@ -136,8 +170,22 @@ def search(smt2: str, timeout_ms: int = 10000):
         return None
     s = z3.Solver(ctx=ctx)
     s.set("timeout", timeout_ms)
-    for g in ground:
+    for g in ground + rest:
         s.add(g)
+    # a READABLE counter-model first: the same query with every numeric constant confined to [-1000, 1000] (a restriction of the search space: a model
+    # of the restricted query is a model of this one; only `sat` is taken from it)
+    nums = {}
+    for g in ground:
+        _num_consts(g, nums, set())
+    if nums:
+        s.push()
+        s.add(*[z3.And(c >= -1000, c <= 1000) for c in nums.values()])
+        if s.check() == z3.sat:
+            try:
+                return "sat", s.model().sexpr(), time.time() - t0
+            except Exception:  # pragma: no cover
+                pass
+        s.pop()
     r = s.check()
     if r == z3.sat:
         try:
